@@ -285,6 +285,15 @@ func (b *BloomSearchEngine) Stop(ctx context.Context) error {
 
 	b.stateMu.Lock()
 	b.stopped = true
+	if !b.started {
+		// Never started: requests accepted before Start are still sitting in
+		// ingestChan with nobody to answer them. Run the workers now so the
+		// ordinary shutdown drain below flushes and acknowledges them.
+		b.started = true
+		b.wg.Add(2)
+		go b.ingestWorker()
+		go b.flushWorker()
+	}
 	b.stateMu.Unlock()
 
 	// Signal workers to stop
